@@ -208,6 +208,51 @@ theorem C11_init_checked (p : ADMMParams K X Z) (x0 : Option X) (hpg : p.proxg.l
     by_cases hc : p.C.length = p.g.length <;> simp [hc, h]
   · unfold admmInitChecked; simp [h1, h2]
 
+/-- step-size state of the Barzilai–Borwein policies (`BBStepSize`, `AdaptiveBBStepSize`): after every call of `step()`
+    of PGM and of AcceleratedPGM the policy's memory `(xprev, gradprev)` is the iterate `x` of the pre-state and its
+    gradient — whether or not the BB value was accepted — and `L` is the documented quotient `ΔgᵀΔg / ΔxᵀΔg` of the
+    differences to the remembered point when it passes the finiteness / positivity test, the previous `L` otherwise -/
+theorem C11_bb_step [HasSqrt K] (gradf : X → X) (ri : X → X → K) (ok : K → Bool) (dz : X) (kappa : K)
+    (p : PGMParams (BBMem X) K X) (hp : p.pol = bbPolicy gradf ri ok dz)
+    (q : PGMParams (ABBMem K X) K X) (hq : q.pol = abbPolicy gradf ri ok kappa dz)
+    (s : PGMState (BBMem X) K X) (a : APGMState (BBMem X) K X)
+    (s' : PGMState (ABBMem K X) K X) (a' : APGMState (ABBMem K X) K X) :
+    (pgmImplStep p s).mem = some (s.x, gradf s.x) ∧ (apgmImplStep p a).mem = some (a.x, gradf a.x) ∧
+    (pgmImplStep q s').mem.prev = some (s'.x, gradf s'.x) ∧ (apgmImplStep q a').mem.prev = some (a'.x, gradf a'.x) ∧
+    (pgmImplStep p s).L = (match s.mem with
+      | none => s.L
+      | some (xp, gp) =>
+        if ok (ri (gradf s.x - gp) (gradf s.x - gp) / ri (s.x - xp) (gradf s.x - gp))
+        then ri (gradf s.x - gp) (gradf s.x - gp) / ri (s.x - xp) (gradf s.x - gp) else s.L) := by
+  refine ⟨?_, ?_, ?_, ?_, ?_⟩
+  · unfold pgmImplStep; rw [hp]; unfold bbPolicy
+    rcases s.mem with _ | ⟨xp, gp⟩ <;> rfl
+  · unfold apgmImplStep; rw [hp]; unfold bbPolicy
+    rcases a.mem with _ | ⟨xp, gp⟩ <;> simp [PolKind.isBB, PolKind.isRobust]
+  · unfold pgmImplStep; rw [hq]; unfold abbPolicy
+    rcases hm : s'.mem.prev with _ | ⟨xp, gp⟩ <;> simp [hm]
+  · unfold apgmImplStep; rw [hq]; unfold abbPolicy
+    rcases hm : a'.mem.prev with _ | ⟨xp, gp⟩ <;> simp [hm, PolKind.isBB, PolKind.isRobust]
+  · unfold pgmImplStep; rw [hp]; unfold bbPolicy
+    rcases s.mem with _ | ⟨xp, gp⟩ <;> rfl
+
+/-- … hence along every PGM trajectory with `BBStepSize` the difference used at iteration `k+1` is between the
+    consecutive iterates `x_{k+1}` and `x_k` (the memory after `k+1` steps is `(x_k, ∇f(x_k))`), for every history of
+    accepted and rejected values -/
+theorem C11_bb_memory_traj [HasSqrt K] (gradf : X → X) (ri : X → X → K) (ok : K → Bool) (dz : X)
+    (p : PGMParams (BBMem X) K X) (hp : p.pol = bbPolicy gradf ri ok dz) (s : PGMState (BBMem X) K X) (k : Nat) :
+    (iter (pgmImplStep p) (k + 1) s).mem = some ((iter (pgmImplStep p) k s).x, gradf (iter (pgmImplStep p) k s).x) := by
+  have hsucc : ∀ (k : Nat) (s : PGMState (BBMem X) K X),
+      iter (pgmImplStep p) (k + 1) s = pgmImplStep p (iter (pgmImplStep p) k s) := by
+    intro k
+    induction k with
+    | zero => intro s; rfl
+    | succ k ih => intro s; exact ih (pgmImplStep p s)
+  rw [hsucc]
+  generalize iter (pgmImplStep p) k s = t
+  unfold pgmImplStep; rw [hp]; unfold bbPolicy
+  rcases t.mem with _ | ⟨xp, gp⟩ <;> rfl
+
 /-- the defect of the pinned tree, as a theorem about the pinned body: ignoring the supplied `x`
     is *not* the documented residual (witness over ℚ: `C = id`, `z = 0`, current `x = 0`,
     supplied `x = 1`) -/
@@ -236,6 +281,10 @@ def exP : ADMMParams ℚ ℚ ℚ :=
 def exS : ADMMState ℚ ℚ := { x := 1, z := [1, 2], zOld := [0, 0], u := [1 / 2, 0] }
 
 example : ADMMWf 2 exP exS := by simp [ADMMWf, exP, exS]
+-- BB policy on the concave `f(x) = −x²/2` over ℚ (`Δx·Δg < 0`): the value is rejected (`L` kept) and the memory is still refreshed
+example :
+    let pol : Policy (BBMem ℚ) ℚ ℚ := bbPolicy (fun x => -x) (fun a b => a * b) (fun l => decide (0 < l)) 0
+    pol.update (some (1, -1)) 3 2 2 = (3, some (2, -2)) := by decide +kernel
 -- the constructor check accepts the instance and rejects it when a penalty parameter is missing
 example : admmInitChecked exP (some 1) = .ok (admmInit exP (some 1)) := by simp [admmInitChecked, exP]
 example : admmInitChecked { exP with rho := [1] } (some 1) = .error .value := by simp [admmInitChecked, exP]
